@@ -1241,6 +1241,147 @@ def translate_bust(repo):
             % (path, "; ".join(ks), pred(m.group("th")), pred(m.group("el")), bound))
 
 
+# ---------------------------------------------------------------------------------------------------
+# rc.rs: the address arithmetic of the raw-pointer API (as_ptr / into_raw / from_raw of Rc and Weak,
+# data_offset, is_dangling, the sentinel of Weak::new, ptr_eq) and the declaration of RcBox.
+# Each function is matched against the statement shape it has today; the parts that carry the
+# arithmetic (field names, the sign of the offset, the operands of the subtraction, the sentinel
+# constants, the comparison operators, the orientation of the dangling test) are holes that are
+# translated, so that a change there yields different Gallina and a broken theorem, not a parse error.
+FTY = {"Cell<usize>": "TCellUsize", "MaybeUninit<RefCell<Links<T>>>": "TLinks", "MaybeUninit<T>": "TValue"}
+
+
+def _const(e):
+    e = e.strip()
+    if e == "usize::MAX":
+        return "USIZE_MAX"
+    if re.fullmatch(r"usize::MAX - \d+", e):
+        return "(USIZE_MAX - %s)" % e.split("-")[1].strip()
+    if re.fullmatch(r"\d+", e):
+        return e
+    raise Unsupported("address constant outside the subset: %r" % e)
+
+
+def _cmp(op):
+    return {"==": "Z.eqb", "!=": "(fun a b => negb (Z.eqb a b))"}[op]
+
+
+def translate_rawptr(repo):
+    path = repo + "/src/rc.rs"
+    src = re.sub(r"//[^\n]*", "", open(path).read())
+    src = re.sub(r"#\[cfg\(cactusref_verif\)\]\s*[^;]*;", "", src)
+
+    def body(hdr):
+        return _norm(_fn_body(src, hdr))
+
+    def need(m, what):
+        if not m:
+            raise Unsupported(what + " is not of the shape the address model transcribes")
+        return m
+    out = ["(* GENERATED by tools/rs2v.py from %s (raw-pointer API: address arithmetic) -- do not edit. *)" % path,
+           "From Coq Require Import ZArith List String Bool. Import ListNotations.",
+           "From Gen Require Import RawPtrLang.", "Local Open Scope Z_scope. Local Open Scope string_scope.", ""]
+    # struct RcBox
+    m = need(re.search(r"(?P<attrs>(?:#\[[^\]]*\]\s*)*)pub\(crate\) struct RcBox<T> \{(?P<fields>[^}]*)\}", src), "struct RcBox")
+    reprc = "true" if re.search(r"#\[repr\(C\)\]", m.group("attrs")) else "false"
+    fields = []
+    for f in [x.strip() for x in m.group("fields").split(",") if x.strip()]:
+        mf = need(re.fullmatch(r"(?:pub(?:\(crate\))? )?(\w+): (.+)", " ".join(f.split())), "field of RcBox")
+        fields.append('("%s", %s)' % (mf.group(1), FTY.get(mf.group(2), "TOther")))
+    out.append("Definition g_repr_c : bool := %s." % reprc)
+    out.append("Definition g_rcbox_fields : list (string * fty) := [%s]." % "; ".join(fields))
+    out += ["", "Section G.", "Variable off : string -> Z.   (* byte offset of a field of RcBox<T> *)", ""]
+    # Rc::as_ptr
+    b = body(r"pub fn as_ptr\(this: &Self\) -> \*const T \{")
+    m = need(re.fullmatch(r"let ptr: \*mut RcBox<T> = NonNull::as_ptr\(this\.ptr\); unsafe \{ "
+                          r"ptr::addr_of_mut!\(\(\*ptr\)\.(\w+)\)\.cast::<T>\(\) \}", b), "Rc::as_ptr")
+    out.append('Definition g_rc_as_ptr (ptr : Z) : Z := wadd ptr (off "%s").' % m.group(1))
+    # Rc::into_raw
+    b = body(r"pub fn into_raw\(this: Self\) -> \*const T \{")
+    need(re.fullmatch(r"let ptr = Self::as_ptr\(&this\); mem::forget\(this\); ptr", b), "Rc::into_raw")
+    out.append("Definition g_rc_into_raw (this : Z) : Z := g_rc_as_ptr this.   (* mem::forget(this) *)")
+    # data_offset
+    b = body(r"unsafe fn data_offset<T>\(ptr: \*const T\) -> isize \{")
+    m = need(re.fullmatch(r"let _ = ptr; let rcbox = MaybeUninit::<RcBox<T>>::uninit\(\); let base_ptr = rcbox\.as_ptr\(\); "
+                          r"let base_ptr = base_ptr as usize; "
+                          r"let field_ptr = ptr::addr_of!\(\(\*\(base_ptr as \*const RcBox<T>\)\)\.(\w+)\); "
+                          r"let field_ptr = field_ptr as usize; \((field_ptr|base_ptr) (-|\+) (field_ptr|base_ptr)\) as isize", b),
+             "data_offset")
+    op = {"-": "wsub", "+": "wadd"}[m.group(3)]
+    out.append('Definition g_data_offset (base_ptr : Z) : Z :=\n  let field_ptr := wadd base_ptr (off "%s") in to_isize (%s %s %s).'
+               % (m.group(1), op, m.group(2), m.group(4)))
+
+    def reverse(txt, what):
+        mm = need(re.fullmatch(r"\(ptr as \*mut u8\)\.offset\((-?)offset\)\.with_metadata_of\(ptr as \*mut RcBox<T>\)", txt), what)
+        return "ptr_offset ptr (%s offset)" % ("-" if mm.group(1) else "")
+    # Rc::from_raw
+    b = body(r"pub unsafe fn from_raw\(ptr: \*const T\) -> Self \{\s*let offset")
+    b = "let offset " + b
+    m = need(re.fullmatch(r"let offset = data_offset\(ptr\); let rc_ptr = (.*?); Self::from_ptr\(rc_ptr\)", b), "Rc::from_raw")
+    out.append("Definition g_rc_from_raw (base ptr : Z) : Z :=\n  let offset := g_data_offset base in %s."
+               % reverse(m.group(1), "Rc::from_raw"))
+    b = body(r"unsafe fn from_ptr\(ptr: \*mut RcBox<T>\) -> Self \{")
+    need(re.fullmatch(r"Self::from_inner\(NonNull::new_unchecked\(ptr\)\)", b), "Rc::from_ptr")
+    # is_dangling
+    b = body(r"pub\(crate\) fn is_dangling<T: \?Sized>\(ptr: \*mut T\) -> bool \{")
+    m = need(re.fullmatch(r"let address = ptr\.cast::<\(\)>\(\) as usize; address (==|!=) (.+)", b), "is_dangling")
+    out.append("Definition g_is_dangling (address : Z) : bool := %s address %s." % (_cmp(m.group(1)), _const(m.group(2))))
+    # Weak::new
+    b = body(r"pub fn new\(\) -> Weak<T> \{")
+    m = need(re.fullmatch(r"Weak \{ ptr: NonNull::new\((.+?) as \*mut RcBox<T>\)\.expect\(\"[^\"]*\"\), phantom: PhantomData, \}", b),
+             "Weak::new")
+    out.append("Definition g_weak_new : Z := %s." % _const(m.group(1)))
+
+    def cond(c, what):
+        mm = need(re.fullmatch(r"(!?)is_dangling\((ptr|ptr\.cast_mut\(\))\)", c), what)
+        return "negb (g_is_dangling ptr)" if mm.group(1) else "g_is_dangling ptr"
+    # Weak::as_ptr
+    b = body(r"pub fn as_ptr\(&self\) -> \*const T \{")
+    m = need(re.fullmatch(r"let ptr: \*mut RcBox<T> = NonNull::as_ptr\(self\.ptr\); if (.+?) \{ (.+?) \} else \{ (.+?) \}$", b), "Weak::as_ptr")
+
+    def arm(t):
+        t = t.strip()
+        if t == "ptr as *const T":
+            return "ptr"
+        mm = re.fullmatch(r"unsafe \{ ptr::addr_of_mut!\(\(\*ptr\)\.(\w+)\) as \*const T \}", t)
+        if mm:
+            return 'wadd ptr (off "%s")' % mm.group(1)
+        raise Unsupported("arm of Weak::as_ptr outside the subset: %r" % t)
+    out.append("Definition g_weak_as_ptr (ptr : Z) : Z := if %s then %s else %s."
+               % (cond(m.group(1), "Weak::as_ptr"), arm(m.group(2)), arm(m.group(3))))
+    # Weak::into_raw
+    b = body(r"pub fn into_raw\(self\) -> \*const T \{")
+    need(re.fullmatch(r"let result = self\.as_ptr\(\); mem::forget\(self\); result", b), "Weak::into_raw")
+    out.append("Definition g_weak_into_raw (self : Z) : Z := g_weak_as_ptr self.   (* mem::forget(self) *)")
+    # Weak::from_raw
+    b = body(r"pub unsafe fn from_raw\(ptr: \*const T\) -> Self \{\s*let ptr = if")
+    b = "let ptr = if " + b
+    m = need(re.fullmatch(r"let ptr = if (.+?) \{ (.+?) \} else \{ (.+?) \}; "
+                          r"Weak \{ ptr: NonNull::new_unchecked\(ptr\), phantom: PhantomData, \}", b), "Weak::from_raw")
+
+    def arm2(t):
+        t = t.strip()
+        if t == "ptr as *mut RcBox<T>":
+            return "ptr"
+        mm = re.fullmatch(r"let offset = data_offset\(ptr\); (.+)", t)
+        if mm:
+            return "(let offset := g_data_offset base in %s)" % reverse(mm.group(1), "Weak::from_raw")
+        raise Unsupported("arm of Weak::from_raw outside the subset: %r" % t)
+    out.append("Definition g_weak_from_raw (base ptr : Z) : Z := if %s then %s else %s."
+               % (cond(m.group(1), "Weak::from_raw"), arm2(m.group(2)), arm2(m.group(3))))
+    # ptr_eq
+    for nm, hdr, a in (("rc", r"pub fn ptr_eq\(this: &Self, other: &Self\) -> bool \{", "this"),
+                       ("weak", r"pub fn ptr_eq\(&self, other: &Self\) -> bool \{", "self")):
+        b = body(hdr)
+        m = need(re.fullmatch(r"(\w+)\.ptr\.as_ptr\(\) (==|!=) (\w+)\.ptr\.as_ptr\(\)", b), nm + " ptr_eq")
+        names = {a: "a", "other": "b"}
+        if m.group(1) not in names or m.group(3) not in names:
+            raise Unsupported("operands of ptr_eq")
+        out.append("Definition g_%s_ptr_eq (a b : Z) : bool := %s %s %s." % (nm, _cmp(m.group(2)), names[m.group(1)], names[m.group(3)]))
+    out += ["", "End G.", ""]
+    return "\n".join(out)
+
+
 if __name__ == "__main__":
     # rs2v.py <repo> <outdir> <counters|adopt>   (no outdir: print)
     import os
@@ -1264,6 +1405,8 @@ if __name__ == "__main__":
             text, name = translate_purge(repo), "PurgeGen.v"
         elif part == "bust":
             text, name = translate_bust(repo), "BustGen.v"
+        elif part == "rawptr":
+            text, name = translate_rawptr(repo), "RawPtrGen.v"
         else:
             text, name = translate_handles(repo), "HandlesGen.v"
     except (Unsupported, ValueError, IndexError) as e:
